@@ -65,7 +65,8 @@ Judge(t, e) ==
   \* first failing clause of event e applied in state t ("" = fine)
   LET pair == ApplyOp(t, e.op)
       m == Mismatch(pair[2], e.r, TRUE)
-  IN IF e.op.name = "next_fails" /\ ~WouldRender(t) THEN "machinery: failure injected where no render happens"
+  IN IF e.op.name = "next_fails" /\ ~WouldRender(t)
+       THEN "next:rendered: the injected render failure fired although no render is due (cached frame / exhausted / closed)"
      ELSE IF m # "" THEN e.op.name \o ":" \o m
      ELSE IF e.paired /\ Mismatch(pair[2], e.r2, FALSE) # ""
        THEN e.op.name \o ":uncached-twin:" \o Mismatch(pair[2], e.r2, FALSE)
